@@ -220,7 +220,14 @@ def run(case, ctx, res):
             with log:
                 try:
                     blob = cfg.dumps(fmt, **opts)
-                    fresh.loads(blob, fmt, **opts)
+                    given = blob
+                    if fmt in ("json", "yaml", "xml") and len(blob) % 3 == 0:
+                        try:
+                            given = blob.decode()  # documents may be handed over as text
+                            res.count("documents_given_as_text")
+                        except UnicodeDecodeError:
+                            pass
+                    fresh.loads(given, fmt, **opts)
                     err = None
                 except Exception as exc:
                     err = exc
